@@ -37,7 +37,7 @@ def run_tlc(module, cfg=None, env=None, workers=4, heap='3g', timeout=1800,
     """Run TLC on spec/<module>.tla; return dict(out, states, distinct, wall, rc)."""
     tag = tag or module
     meta = workdir('tlc_' + tag)
-    cmd = ['java', '-XX:+UseParallelGC', f'-Xmx{heap}', '-Xss64m',
+    cmd = ['java', '-XX:+UseParallelGC', '-XX:ParallelGCThreads=4', '-Xmn512m', f'-Xmx{heap}', '-Xss64m',
            '-cp', JAR, 'tlc2.TLC', '-workers', str(workers), '-metadir', meta,
            '-noGenerateSpecTE', '-deadlock']
     if cfg:
@@ -105,7 +105,7 @@ def parse_verdicts(out, n):
     return v
 
 
-def judge(module, traces, tag=None, jvms=8, workers=2, heap='3g', timeout=1800):
+def judge(module, traces, tag=None, jvms=4, workers=4, heap='3g', timeout=1800, per_jvm=6000):
     """
     Have TLC judge *traces* (a list of JSON-able dicts) with spec/<module>.tla.
     Returns (verdicts, stats): verdicts[i] = (code, detail), code in
@@ -115,7 +115,7 @@ def judge(module, traces, tag=None, jvms=8, workers=2, heap='3g', timeout=1800):
         return [], dict(states=0, distinct=0, wall=0.0)
     tag = tag or module
     d = workdir('judge_' + tag)
-    k = max(1, min(jvms, (len(traces) + 499) // 500))
+    k = max(1, min(jvms, (len(traces) + per_jvm - 1) // per_jvm))
     size = (len(traces) + k - 1) // k
     chunks = [traces[i:i + size] for i in range(0, len(traces), size)]
     files = []
